@@ -52,6 +52,11 @@ def np_zeros(ex, st, args, kwargs, node):
         return _out(ty.MatV(z3.K(z3.IntSort(), z3.K(z3.IntSort(), z3.RealVal(0))), r, c), st)
     n = ty.to_z3num(_num(ex, st, shape[0] if isinstance(shape, tuple) else shape, node))
     ex.safety(st, "np.zeros-nonnegative-shape", n >= 0, node)
+    if kwargs.get("dtype") is not None:
+        dt = kwargs["dtype"]
+        if getattr(dt, "name", dt) in (int, "int"):
+            return _out(ty.SeqV(ty.Int, [z3.K(z3.IntSort(), z3.IntVal(0))], n), st)
+        raise _U(f"np.zeros with dtype {dt!r}", node)
     return _out(ty.SeqV(ty.Real, [z3.K(z3.IntSort(), z3.RealVal(0))], n), st)
 
 
